@@ -12,56 +12,101 @@
 -/
 import RxModel.Spec.OpLang
 import RxModel.Model.Api
+import RxModel.Proofs.EngineSound
 namespace Rx.C01
 open Rx
 
 /-- a fixed length reported by `get_match_length` is the length of every match -/
 theorem matchLen_sound (ctx : Ctx) (op : Op) (hwf : wfOp op = true) (l : Nat)
     (hl : matchLen op = some l) (hlt : l < usizeMax) (p : Nat) (st : St) :
-    (sem ctx op p st).All (fun n => n = p + l) := by
-  sorry
+    (sem ctx op p st).All (fun n => n = p + l) :=
+  matchLen_sound_op ctx op hwf l hl hlt p st
 
-/-- every yielded position is in the language of the operation -/
-theorem sem_sound (ctx : Ctx) (op : Op) (hwf : wfOp op = true) (p : Nat) (st : St) :
-    (sem ctx op p st).All (fun n => OpR ctx op p n) := by
-  sorry
+/-- every yielded position is in the language of the operation (for a start position inside the
+    input; see the counterexample below for why `hp` is needed) -/
+theorem sem_sound (ctx : Ctx) (op : Op) (hwf : wfOp op = true) (p : Nat) (hp : p ≤ ctx.len) (st : St) :
+    (sem ctx op p st).All (fun n => OpR ctx op p n) :=
+  (sem_sound_op ctx op hwf p st).mono (fun _ h => h hp)
 
 /-- members of the language lie inside the input, to the right of the start -/
 theorem OpR_bounds (ctx : Ctx) (op : Op) (p q : Nat) (hp : p ≤ ctx.len) (h : OpR ctx op p q) :
-    p ≤ q ∧ q ≤ ctx.len := by
-  sorry
+    p ≤ q ∧ q ≤ ctx.len :=
+  OpR_bounds_op ctx op p q hp h
 
 /-- every yielded position lies inside the input, to the right of the start -/
 theorem sem_bounds (ctx : Ctx) (op : Op) (hwf : wfOp op = true) (p : Nat) (hp : p ≤ ctx.len) (st : St) :
-    (sem ctx op p st).All (fun n => p ≤ n ∧ n ≤ ctx.len) := by
-  sorry
+    (sem ctx op p st).All (fun n => p ≤ n ∧ n ≤ ctx.len) :=
+  (sem_sound ctx op hwf p hp st).mono (fun n h => OpR_bounds ctx op p n hp h)
 
-/-- `match_at(j)` succeeds only on a member of the language starting at `j` -/
-theorem matchAt_sound (ctx : Ctx) (op : Op) (hwf : wfOp op = true) (j : Nat) (st st' : St)
-    (h : matchAt ctx op j st = (true, st')) : ∃ n, OpR ctx op j n := by
-  sorry
+/-- `match_at(j)` succeeds only on a member of the language starting at `j` (for a start position
+    inside the input; see the counterexample below for why `hj` is needed) -/
+theorem matchAt_sound (ctx : Ctx) (op : Op) (hwf : wfOp op = true) (j : Nat) (hj : j ≤ ctx.len)
+    (st st' : St) (h : matchAt ctx op j st = (true, st')) : ∃ n, OpR ctx op j n :=
+  matchAt_sound_aux ctx op hwf j hj st st' h
+
+/-! Why `hp` / `hj`: a back-reference to a group that did not participate matches the empty string
+    at *any* position, also one beyond the end of the input, where `OpR` (which keeps a
+    back-reference inside the input) is empty.  The search never starts there (`isMatch_sound`). -/
+section counterexample
+private def cexCtx : Ctx :=
+  { input := [], caseBlind := false, multiLine := false, hasBackrefs := true, maxParens := 1,
+    lower := fun c => c }
+private def cexSt : St := { startBr := [none] }
+
+example : wfOp (.backref 0) = true := by decide
+example : sem cexCtx (.backref 0) 1 cexSt = .once 1 cexSt := rfl
+example : ¬ OpR cexCtx (.backref 0) 1 1 := by simp [OpR, cexCtx, Ctx.len]
+
+/-- `sem_sound` without `hp` is false -/
+example : ¬ ∀ (ctx : Ctx) (op : Op), wfOp op = true → ∀ (p : Nat) (st : St),
+    (sem ctx op p st).All (fun n => OpR ctx op p n) := by
+  intro h
+  have h1 := h cexCtx (.backref 0) rfl 1 cexSt
+  have h2 : sem cexCtx (.backref 0) 1 cexSt = .cons 1 cexSt .nil := rfl
+  rw [h2] at h1
+  have h3 := h1.head
+  simp [OpR, cexCtx, Ctx.len] at h3
+
+/-- `matchAt_sound` without `hj` is false -/
+example : ¬ ∀ (ctx : Ctx) (op : Op), wfOp op = true → ∀ (j : Nat) (st st' : St),
+    matchAt ctx op j st = (true, st') → ∃ n, OpR ctx op j n := by
+  intro h
+  obtain ⟨n, hn⟩ := h cexCtx (.backref 0) rfl 1 {} _ rfl
+  simp only [OpR, cexCtx, Ctx.len, List.length_nil] at hn
+  omega
+end counterexample
 
 /-- `is_match` answers `true` only if some substring of the input is in the program's language
     (all five search shortcuts included) -/
 theorem isMatch_sound (pr : Prog) (lower : Nat → Nat) (input : List Nat) (hwf : wfOp pr.op = true)
     (h : pr.isMatch lower input = .ok true) :
     ∃ i j, i ≤ j ∧ j ≤ input.length ∧ OpR (pr.ctx lower input) pr.op i j := by
-  sorry
+  obtain ⟨st, hm⟩ := isMatch_true h
+  obtain ⟨i, hi, st1, st2, hma⟩ := matchesFrom_sound _ pr 0 _ _ (Nat.zero_le _) hm
+  obtain ⟨j, hj⟩ := matchAt_sound _ pr.op hwf i hi st1 st2 hma
+  have hb := OpR_bounds _ pr.op i j hi hj
+  exact ⟨i, j, hb.1, hb.2, hj⟩
 
 /-! the language is compositional, so it cannot depend on the order of exploration -/
 
 theorem OpR_choice_comm (ctx : Ctx) (a b : Op) (p q : Nat) :
     OpR ctx (.choice [a, b]) p q ↔ OpR ctx (.choice [b, a]) p q := by
-  sorry
+  simp only [OpR, OpRAny, or_false]
+  exact Or.comm
 
 theorem OpR_seq_assoc (ctx : Ctx) (a b c : Op) (p q : Nat) :
     OpR ctx (.seq [.seq [a, b], c]) p q ↔ OpR ctx (.seq [a, .seq [b, c]]) p q := by
-  sorry
+  simp only [OpR, OpRSeq]
+  constructor
+  · rintro ⟨m, ⟨m1, ha, m2, hb, rfl⟩, m3, hc, rfl⟩
+    exact ⟨m1, ha, q, ⟨m, hb, q, hc, rfl⟩, rfl⟩
+  · rintro ⟨m1, ha, m, ⟨m2, hb, m3, hc, rfl⟩, rfl⟩
+    exact ⟨m2, ⟨m1, ha, m2, hb, rfl⟩, q, hc, rfl⟩
 
 /-- a greedy and a reluctant repeat denote the same language -/
 theorem OpR_rep_greedy_irrelevant (ctx : Ctx) (id1 id2 : Nat) (c : Op) (mn mx : Nat) (p q : Nat) :
     OpR ctx (.rep id1 c mn mx true) p q ↔ OpR ctx (.rep id2 c mn mx false) p q := by
-  sorry
+  simp only [OpR]
 
 /-! non-vacuity -/
 example : wfOp (.seq [.gfixed (.atom [97]) 0 usizeMax 1, .atom [98], .endProgram]) = true := by decide
